@@ -465,6 +465,30 @@ func checkC13(c *Ctx) {
 				}
 			})
 		}
+		// ... or read from a constant package-level table keyed by the command name
+		if len(got) == 0 {
+			for _, sf := range append([]*ssa.Function{CompFn}, staticCalleesDeep(CompFn, 2)...) {
+				eachInstr(sf, func(_ *ssa.BasicBlock, _ int, in ssa.Instruction) {
+					lk, ok := in.(*ssa.Lookup)
+					if !ok {
+						return
+					}
+					ld, ok := lk.X.(*ssa.UnOp)
+					if !ok {
+						return
+					}
+					g, ok := ld.X.(*ssa.Global)
+					if !ok {
+						return
+					}
+					if tbl, ok := p.globalIntTable(g); ok {
+						for k, v := range tbl {
+							got[k] = v
+						}
+					}
+				})
+			}
+		}
 		if len(got) == 0 {
 			c.Undecided("R3", "offset table", ind.Pos(), "the first value position is not selected by comparing the command name with constants")
 			return
